@@ -299,7 +299,7 @@ class C05(core.Check):
                 style |= 1  # must be quoted in the header line
             # the header block as other servers / transports deliver it: HTTP/2 status line, an earlier redirect or proxy header block first
             if r.random() < 0.3:
-                style |= r.choice([128, 256, 512, 128 | 256, 256 | 512])
+                style |= r.choice([128, 256, 512, 128 | 256, 256 | 512, 1024, 1024 | 128])
             out.append({"name": name, "B": core.b64(B), "T0": core.b64(t0_for(B, p, set(M), truncate)), "M": M, "limit": limit, "style": style,
                         "boundary": bd, "bkind": bkind, "mode": mode, "corrupt": corrupt, "chain": chain, "zh": ctx["zh"]})
 
@@ -310,7 +310,9 @@ class C05(core.Check):
             p = zckref.parse(B)
             cand = [c["number"] for c in p.chunks if c["comp_len"] > 0]
             M = set(r.sample(cand, r.randrange(1, min(4, len(cand)) + 1)))
-            style = r.choice([0, 1, 2, 4, 8, 16, 6, 9, 32, 36])
+            # (header-name spellings and part-header layouts in a fixed rotation, most of them as multipart: none depends on the random stream)
+            style = [2 | 32, 1024 | 32, 4 | 32, 0, 8 | 32, 16 | 32, 6 | 32, 9, 1024, 36, 2, 1][i % 12]
+            r.choice([0, 1])
             bk = r.choice(["plain", "hex", "rfc", "dashes"]) if i % 3 else "rfc"
             limit = r.choice([-1, 1, 2, 3])
             step = 40
